@@ -77,6 +77,11 @@ func (g *gen) initPart(lrn []int) string {
 		c = minNodes + r.Pick(g.replica-minNodes+1)
 	case 1:
 		c = g.replica + 1
+	case 2:
+		// well short of the factor (two or more replacements needed) when the factor allows it
+		if g.replica >= 4 {
+			c = minNodes
+		}
 	}
 	if c > g.m {
 		c = g.m
@@ -414,6 +419,13 @@ func (g *gen) script(in *inst) {
 	}
 	// a replica's node stays registered but stops answering (or answers not-synced) for every partition
 	hang := func(in *inst) event { return g.hangReplica(in) }
+	if r.Chance(0.25) {
+		// grow an under-replicated partition over consecutive migrate rounds WITHOUT the data nodes' member lists
+		// catching up in between: the replica added in one round answers synced, but the others do not list it yet
+		g.queue = []func(in *inst) event{allUp, conv(true), check, tick(18), check, check, tick(18), check, check, tick(18), check,
+			conv(true), check, tick(18), check}
+		return
+	}
 	nscripts := 3
 	if g.has("L") {
 		nscripts = 4
